@@ -929,7 +929,12 @@ func suiteCatchmentWalk(c *Ctx) {
 	gen := c.N(6, 120)
 	genExactCostTies = true // this suite's driver answers BOUNDARY where a cost is an exact tie of RoundFloat(cost, 2)
 	for g := 0; g < gen; g++ {
+		// the first generated dataset of every run carries exact half-cent costs: RoundFloat(+c, 2) and RoundFloat(-c, 2)
+		// must mirror each other or an on/off round trip leaves a cent behind (judged Go against Go: the driver answers
+		// BOUNDARY at exact ties)
+		genForceTies = g == 0
 		ds := genDataset(r.Fork(), filepath.Join(c.Out, "gen"), fmt.Sprintf("G%d_%d_", c.Shard, g))
+		genForceTies = false
 		jobs = append(jobs, job{ds: ds, limVar: -1, tag: "generated", steps: walkSteps / 2})
 		if ref, err := newRef(ds, -1, 0); err == nil && ref.cm.n() > 0 {
 			v := r.Intn(6)
